@@ -109,6 +109,19 @@ func c07(c *core.Ctx) {
 	c.Rule("C07.lockstep", "signAndEncrypt encrypts under exactly the condition under which verifyAndDecrypt decrypts (same normalised condition over SecurityMode and isAsymmetric), likewise for the padding branch; the extra-padding test uses the peer-key signature length on the sender and the own-key length on the receiver", 3)
 
 	c06Overhead(c, "C07.overhead")
+	c.Rule("C07.merge", "mergeChunks drops a chunk only when its sequence number EQUALS that of the chunk taken before it (C10.dupfilter applies verbatim): any wider test (<=, a window) also drops the chunks that follow a sequence-number wrap-around inside a multi-chunk message, and the peer reassembles a truncated body", 1)
+	{
+		tmp := core.NewCtx(c.Prop, c.Tier, c.P)
+		c10(tmp)
+		for _, e := range tmp.Errors {
+			c.Fatal("%s", e)
+		}
+		for _, o := range tmp.Obs {
+			if o.Rule == "C10.dupfilter" {
+				c.Ob("C07.merge", o.Key, o.Pos, o.OK, o.Detail)
+			}
+		}
+	}
 	c.Rule("C07.retry", "verifyAndDecrypt (and what it calls in uasc) never writes into the chunk bytes it was handed (C20.nowrite applies verbatim): readChunk offers the same bytes to every token instance in turn, so an attempt under the wrong keys must leave them intact for the instance that matches", 1)
 	{
 		tmp := core.NewCtx(c.Prop, c.Tier, c.P)
